@@ -13,7 +13,7 @@ REPO = os.environ.get("VERIF_REPO", "/repo")
 GUARD = "--cfg varlink_rust_verif"
 
 RUST_ENGINE = {"C08", "C09", "C01", "C02", "C03", "C04", "C05", "C06", "C07", "C10", "C11", "C12", "C13", "C14", "C15", "C17"}
-NEEDS_REPO_BINS = {"C10": ["varlink-cli"], "C09": ["varlink_generator"], "C02": ["ping"]}
+NEEDS_REPO_BINS = {"C10": ["varlink-cli"], "C09": ["varlink_generator"], "C02": ["ping"], "C06": ["ping"]}
 PY_ENGINE = {"C16": "c16", "C18": "c18", "C19": "c19", "C20": "c20"}
 
 
